@@ -29,7 +29,11 @@ TPool ==
   /\ Ev("pool")
   /\ LET e == Trace[l] IN
      DefStream(e.sid, [ver |-> e.ver, secs |-> e.secs, len |-> e.len, layout |-> e.layout,
-                       content |-> Content(e.keys, e.vals, e.hasvals, e.opt, TRUE)])
+                       \* what the stream encodes: a three-section stream holds the conversion
+                       \* of the old trie = the current table with the 257-bit latch clear, every
+                       \* key, steps only (SlimLegacy, MC_Legacy)
+                       content |-> IF e.v3 = 1 THEN Content(e.keys, e.vals, e.hasvals, <<0, 0, 0, 0>>, FALSE)
+                                   ELSE Content(e.keys, e.vals, e.hasvals, e.opt, TRUE)])
   /\ UNCHANGED <<inst, pc, last, lastbat, scribbled>>
 
 TInst ==
